@@ -442,7 +442,7 @@ def report_correspondence(ctx, spec, inputs, proofs_ok, batch=160):
             o = col.terms[terms[i]][0]
             inp = {'part': 'report', 'name': o['name'], 'input': texts[o['name']]}
             if o['kind'] == 'line':
-                ctx.violate('property', f'line:{o["label"]}', f'{o["name"]}: the figure printed on "{o["label"]}" is not the specified quantity at the displayed precision',
+                ctx.violate('property', f'line:{o["label"]}', f'{o["name"]}: the line "{o["label"]}" does not show the specified quantity rounded to the displayed precision with the specified unit text',
                             inp={**inp, 'line': o['at']}, expected=rep.python_text(o['items']), observed=o['actual'])
             else:
                 rec, act = o['rec'], o['rows']
